@@ -32,6 +32,7 @@ var swap = map[string]string{
 	"time":          "verif/simos/time",
 	"sync":          "verif/simos/sync",
 	"math/rand":     "verif/simos/rand",
+	"crypto/rand":   "verif/simos/crand",
 	"log":           "verif/simos/log",
 	"bufio":         "verif/simos/bufio",
 }
